@@ -48,13 +48,20 @@ define("work_trigger(t)", "len(t.allocated_worker_list) > 0 or (t.auto_task and 
                           " or (t.auto_task and t.target_component is not None"
                           "     and exists(t.allocated_workplace_list, lambda wp: wp is t.target_component.placed_workplace))")
 
-MONO_W = "forall_obj('BaseWorker', lambda w: w.state == %s(w.state) or w.state == BaseWorkerState.WORKING)"
-MONO_F = "forall_obj('BaseFacility', lambda f: f.state == %s(f.state) or f.state == BaseFacilityState.WORKING)"
+# a resource state changes here only to WORKING, and only if the resource was FREE or belongs to a task that starts now
+# (C03 d / C10: an individually absent resource of a running task stays ABSENCE)
+MONO_W = ("forall_obj('BaseWorker', lambda w: w.state == %s(w.state) or (w.state == BaseWorkerState.WORKING and (old(w.state) == BaseWorkerState.FREE"
+          " or (len(w.assigned_task_list) == 1 and old(w.assigned_task_list[0].state) == BaseTaskState.READY))))")
+MONO_F = ("forall_obj('BaseFacility', lambda f: f.state == %s(f.state) or (f.state == BaseFacilityState.WORKING and (old(f.state) == BaseFacilityState.FREE"
+          " or (len(f.assigned_task_list) == 1 and old(f.assigned_task_list[0].state) == BaseTaskState.READY))))")
 
 contract("BaseWorkflow.__check_working", props=["C01", "C03", "C06"],
          types={"time": "Int"},
-         requires=["wf_alloc(self)"],
+         requires=["wf_alloc(self)", "holds_exclusively(self)"],
          ensures=[
+             ("absent-resources-of-running-tasks-stay-absent", "forall(self.task_list, lambda t: implies(old(t.state) == BaseTaskState.WORKING,"
+                  " forall(t.allocated_worker_list, lambda w: implies(old(w.state) == BaseWorkerState.ABSENCE, w.state == BaseWorkerState.ABSENCE))"
+                  " and forall(t.allocated_facility_list, lambda f: implies(old(f.state) == BaseFacilityState.ABSENCE, f.state == BaseFacilityState.ABSENCE))))"),
              ("only-ready-to-working", "forall_obj('BaseTask', lambda t: implies(t.state != old(t.state),"
                                        " old(t.state) == BaseTaskState.READY and t.state == BaseTaskState.WORKING))"),
              ("needs-trigger", "forall_obj('BaseTask', lambda t: implies(t.state != old(t.state), work_trigger(t)))"),
